@@ -46,7 +46,7 @@ HG_REGEXPS = ["\\.log$", "\\.tmp$", "^build", "^src/lib", "abc", "keep\\.log", "
 
 
 def examples(tier):
-    return 840 if tier == "quick" else 12000
+    return 5600 if tier == "quick" else 70000
 
 
 @st.composite
